@@ -357,6 +357,14 @@ def run_model(tag, imports, case_type, run_fn, cases, shard=250, timeout=900, pr
                 running.append((fn, pr))
             fn, pr = running.pop(0)
             out, err = pr.communicate()
+            if pr.returncode == 124:
+                # the shard ran out of time: some case is too expensive for the model as it is written (e.g. a regular
+                # expression with nested repetition against a long value blows the derivative up).  Find it; a case
+                # the model cannot evaluate in time is outside the modelled universe (skipped and counted), the rest
+                # of the shard is still compared.
+                k0 = int(fn[len('cases_'):-2]) * shard
+                results[fn] = _eval_slow_shard(work, imports, prelude, case_type, run_fn, cases[k0:k0 + shard])
+                continue
             if pr.returncode != 0:
                 raise BuildError('model evaluation failed for %s' % fn,
                                  (err or out)[-3000:] + '\n--- see ' + os.path.join(work, fn))
@@ -372,6 +380,40 @@ def run_model(tag, imports, case_type, run_fn, cases, shard=250, timeout=900, pr
         return out
     except BuildError:
         raise
+
+
+def _eval_cases(work, imports, prelude, case_type, run_fn, lits, timeout, name):
+    with open(os.path.join(work, name), 'w') as f:
+        f.write(HEADER % imports)
+        f.write(prelude + '\n')
+        f.write('Definition cases : list (%s) :=\n  [ ' % case_type)
+        f.write('\n  ; '.join(lits))
+        f.write(' ].\n')
+        f.write('Eval vm_compute in (map (%s) cases).\n' % run_fn)
+    cmd = ['bash', '-c', 'ulimit -s 2000000 2>/dev/null; exec timeout %d coqc -q -R %s Vakt -w -all %s' % (timeout, COQ, name)]
+    pr = subprocess.run(cmd, cwd=work, stdout=subprocess.PIPE, stderr=subprocess.PIPE, text=True)
+    if pr.returncode == 124:
+        return None
+    if pr.returncode != 0:
+        raise BuildError('model evaluation failed for %s' % name, (pr.stderr or pr.stdout)[-3000:])
+    r = parse_eval(pr.stdout)
+    if len(r) != len(lits):
+        raise BuildError('model printed %d results for %d cases in %s' % (len(r), len(lits), name), '')
+    return r
+
+
+def _eval_slow_shard(work, imports, prelude, case_type, run_fn, lits):
+    out = []
+    for a in range(0, len(lits), 25):
+        chunk = lits[a:a + 25]
+        r = _eval_cases(work, imports, prelude, case_type, run_fn, chunk, 120, 'slow_%d.v' % a)
+        if r is None:
+            r = []
+            for j, lit in enumerate(chunk):
+                one = _eval_cases(work, imports, prelude, case_type, run_fn, [lit], 40, 'slow_%d_%d.v' % (a, j))
+                r.append(one[0] if one is not None else 'UNMODELLED model-evaluation-timeout')
+        out.extend(r)
+    return out
 
 
 _STR_LIT = re.compile(r'"((?:[^"]|"")*)"')
